@@ -92,11 +92,51 @@ def c01(m, runner, p, t, x):
     return {"checks": checks, "violations": viol}
 
 
-ORACLES = {"c01": c01}
+def c02(m, runner, p, t, x):
+    """total rate = entry - exit, at one state"""
+    r = runner.impl_dict["one_step"](p, t, x)
+    fr = np.asarray(r.flow_rates, dtype=float)
+    cr = np.asarray(r.comp_rates, dtype=float)
+    entry = sum(fr[i] for i, f in enumerate(m.flows) if f.dest and not f.source)
+    exit_ = sum(fr[i] for i, f in enumerate(m.flows) if f.source and not f.dest)
+    scale = float(np.abs(fr).max()) if len(fr) else 1.0
+    viol = []
+    if not close(float(cr.sum()), float(entry - exit_), scale * max(1, len(fr))):
+        viol.append("sum(comp_rates)=%.12g but entry-exit=%.12g" % (cr.sum(), entry - exit_))
+    return {"checks": 1, "violations": viol}
+
+
+def c02_traj(m, o):
+    """closed / replacement-only models keep their total along the solved trajectory"""
+    from fractions import Fraction
+    p = {k: float(Fraction(v)) for k, v in (o.get("params") or {}).items()}
+    viol, checks = [], 0
+    has_entry = any(f.dest and not f.source for f in m.flows)
+    has_exit = any(f.source and not f.dest for f in m.flows)
+    only_repl = all(type(f).__name__ == "ReplacementBirthFlow" for f in m.flows if f.dest and not f.source)
+    for solver, tol in (("euler", 1e-9), ("rk4", 1e-9), ("solve_ivp", 1e-3)):
+        m.run(p, solver=solver, rebuild=True, jit=False)
+        tot = np.asarray(m.outputs).sum(axis=1)
+        if not np.isfinite(tot).all():
+            continue
+        conserved = (not has_entry and not has_exit) or (o.get("replacement") and has_entry and only_repl)
+        if conserved:
+            checks += 1
+            drift = float(np.abs(tot - tot[0]).max())
+            mag = float(np.abs(np.asarray(m.outputs)).sum(axis=1).max())
+            if drift > tol * (1 + mag):
+                viol.append("%s: total population drifts by %.6g (start %.6g)" % (solver, drift, tot[0]))
+    return {"checks": checks, "violations": viol}
+
+
+ORACLES = {"c01": c01, "c02": c02}
+MODEL_ORACLES = {"c02_traj": c02_traj}
 
 
 def run_oracle(m, o):
     from fractions import Fraction
+    if o["name"] in MODEL_ORACLES:
+        return MODEL_ORACLES[o["name"]](m, o)
     p = {k: float(Fraction(v)) for k, v in (o.get("params") or {}).items()}
     runner = m.get_runner(p, jit=False)
     t = None if o.get("t") is None else float(Fraction(o["t"]))
